@@ -2,6 +2,7 @@
      reclass <nb> bins.. <nn> newvals.. <rows> <cols> cells..
      binary  <nv> values.. <rows> <cols> cells..
      class   <nb> bins.. <rows> <cols> cells..
+     jenksmin <k> <n> sorted integer data..
    output: the result cells row-major, or ERR … *)
 open Model
 open Zio
@@ -22,4 +23,10 @@ let () = main_loop (fun op r ->
     let bins = next_list r next_xv in
     let g = next_grid r next_xv in
     string_of_grid opt_cell (List.map (List.map (class_cell bins)) g)
+  | "jenksmin" ->
+    (* jenksmin <k> <n> x1..xn  (integers, ascending) -> exact minimum within-class SSD as num/den *)
+    let k = next_int r in
+    let xs = next_list r next_z in
+    let q = jenks_min (List.map (fun z -> { qnum = z; qden = XH }) xs) (nat_of_int k) in
+    string_of_z q.qnum ^ "/" ^ string_of_z (Zpos q.qden)
   | _ -> "ERR unknown-op " ^ op)
